@@ -46,9 +46,12 @@ class Obligation:
 
 
 class VC:
-    def __init__(self, func_name, fin=None, options=None):
+    def __init__(self, func_name, fin=None, options=None, fin_range=None):
         self.func = func_name
-        self.fin = fin                      # None = proof mode; int N = finitised mode (sizes < N, quantifiers expanded)
+        self.fin = fin
+        # finitised mode: sizes registered in fin_bounds are < fin; quantifiers are expanded over [-1, fin_range).
+        # fin_range must cover every index expression of the contract (e.g. n + b) or finitised `sat` answers are spurious.
+        self.fin_range = fin_range if fin_range is not None else ((fin + 1) if fin is not None else None)                      # None = proof mode; int N = finitised mode (sizes < N, quantifiers expanded)
         self.options = dict(div_check=True)
         self.options.update(options or {})
         self.obligations = []
@@ -240,7 +243,7 @@ def forall_range(lo, hi, body, name='q', vc=None):
         finally:
             _DEPTH[0] -= 1
         return z3.ForAll([v], z3.Implies(z3.And(lo <= v, v < hi), b))
-    return z3.And([z3.Implies(z3.And(lo <= j, j < hi), _z(body(z3.IntVal(j)))) for j in range(-1, vc.fin + 1)])
+    return z3.And([z3.Implies(z3.And(lo <= j, j < hi), _z(body(z3.IntVal(j)))) for j in range(-1, vc.fin_range)])
 
 
 def forall2_range(lo, hi, body, name='q', vc=None):
@@ -256,7 +259,7 @@ def forall2_range(lo, hi, body, name='q', vc=None):
         finally:
             _DEPTH[0] -= 1
         return z3.ForAll([a, b], z3.Implies(z3.And(lo <= a, a < hi, lo <= b, b < hi), bd))
-    rng = range(-1, vc.fin + 1)
+    rng = range(-1, vc.fin_range)
     return z3.And([z3.Implies(z3.And(lo <= i, i < hi, lo <= j, j < hi), _z(body(z3.IntVal(i), z3.IntVal(j)))) for i in rng for j in rng])
 
 
@@ -271,7 +274,7 @@ def exists_range(lo, hi, body, name='e', vc=None):
         finally:
             _DEPTH[0] -= 1
         return z3.Exists([v], z3.And(lo <= v, v < hi, b))
-    return z3.Or([z3.And(lo <= j, j < hi, _z(body(z3.IntVal(j)))) for j in range(-1, vc.fin + 1)])
+    return z3.Or([z3.And(lo <= j, j < hi, _z(body(z3.IntVal(j)))) for j in range(-1, vc.fin_range)])
 
 
 def forall_sort(sort, body, name='k', vc=None, universe=None):
